@@ -63,4 +63,53 @@ Section Sizing.
   Proof. intros Hl. apply (rel_existsb (gitem_rel k)); [|exact Hl]. intros g g' Hg. gi_open Hg. rewrite Ega. reflexivity. Qed.
   Lemma rel_has_percentage ts ts' : tracks_rel k ts ts' -> existsb track_uses_percentage ts' = existsb track_uses_percentage ts.
   Proof. intros Hts. apply (rel_existsb (track_rel k)); [|exact Hts]. intros t t' Ht. apply (rel_track_uses_percentage k). exact Ht. Qed.
+
+  (* ---- track_sizing_algorithm *)
+  Lemma rel_m_track_sizing ax amin amin' amax amax' al oal ga ga' inner inner' fp hb s s' :
+    O amin amin' -> O amax amax' -> sz_rel (av_rel L) ga ga' -> sz_rel O inner inner' -> sstate_rel k s s' ->
+    ProgRel k (sstate_rel k) (m_track_sizing ax amin amax al oal ga inner fp hb s) (m_track_sizing ax amin' amax' al oal ga' inner' fp hb s').
+  Proof.
+    intros Hmn Hmx Hga Hin Hs. unfold m_track_sizing.
+    pose proof (rel_get_ax O _ _ ax Hin) as Hai.
+    pose proof (rel_to_track_avail _ _ (rel_get_ax (av_rel L) _ _ ax Hga)) as Hav.
+    pose proof (initialize_track_sizes_homog k Hk _ _ _ _ Hai (rel_ss_tracks _ _ ax Hs)) as H0.
+    set (ts0 := initialize_track_sizes (get_ax inner ax) (ss_tracks s ax)) in *.
+    set (ts0' := initialize_track_sizes (get_ax inner' ax) (ss_tracks s' ax)) in *.
+    set (avail := to_track_avail (get_ax ga ax)) in *. set (avail' := to_track_avail (get_ax ga' ax)) in *.
+    eapply pbind_rel with (RA := Forall2 (gitem_rel k)).
+    { destruct hb; [apply rel_m_resolve_item_baselines; [exact Hk|exact Hin|apply rel_ss_items; exact Hs]|constructor; apply rel_ss_items; exact Hs]. }
+    intros items1 items1' Hit1. rewrite (rel_all_sized _ _ H0).
+    destruct (forallb _ ts0).
+    { constructor. apply rel_ss_set; [exact Hs|exact H0|apply rel_ss_adj; exact Hs|exact Hit1]. }
+    pose proof (rel_ss_tracks _ _ (other_ax ax) Hs) as Hot.
+    assert (Hoadj : L (if Nat.ltb 3 (length (ss_tracks s (other_ax ax)))
+                       then compute_alignment_gutter_adjustment oal (get_ax inner (other_ax ax)) fp (ss_tracks s (other_ax ax))
+                       else ss_adj s (other_ax ax))
+                      (if Nat.ltb 3 (length (ss_tracks s' (other_ax ax)))
+                       then compute_alignment_gutter_adjustment oal (get_ax inner' (other_ax ax)) fp (ss_tracks s' (other_ax ax))
+                       else ss_adj s' (other_ax ax))).
+    { rewrite (rel_length (track_rel k) _ _ Hot). destruct (Nat.ltb 3 _).
+      - apply (rel_compute_alignment_gutter_adjustment k Hk); [apply rel_get_ax; exact Hin|exact Hot].
+      - apply rel_ss_adj; exact Hs. }
+    cbv zeta.
+    set (oadj := if Nat.ltb 3 (length (ss_tracks s (other_ax ax))) then _ else _) in *.
+    set (oadj' := if Nat.ltb 3 (length (ss_tracks s' (other_ax ax))) then _ else _) in *.
+    eapply pbind_rel with (RA := VB).
+    { apply Hintr; assumption. }
+    intros [ts1 items2] [ts1' items2'] [Hts1 Hit2]. cbn [fst snd] in Hts1, Hit2.
+    pose proof (maximise_tracks_homog k Hk _ _ _ _ _ _ _ _ Hthr Hai Hav Hts1) as H2.
+    rewrite !maximise_tracks_t_threshold in H2.
+    assert (Hae : gavail_rel k (match get_ax inner ax with Some sz => Definite sz | None => match avail with MinContentA => MinContentA | _ => MaxContentA end end)
+                               (match get_ax inner' ax with Some sz => Definite sz | None => match avail' with MinContentA => MinContentA | _ => MaxContentA end end)).
+    { destruct (get_ax inner ax), (get_ax inner' ax); cbn [op_rel] in Hai; try contradiction; [exact Hai|].
+      destruct avail, avail'; cbn [gavail_rel] in Hav; try contradiction; exact I. }
+    set (ae := match get_ax inner ax with Some sz => Definite sz | None => _ end) in *.
+    set (ae' := match get_ax inner' ax with Some sz => Definite sz | None => _ end) in *.
+    eapply pbind_rel with (RA := pair_rel (Forall2 (fitem_rel k)) (Forall2 (gitem_rel k))).
+    { apply rel_m_flex_items; assumption. }
+    intros [fi items3] [fi' items3'] [Hfi Hit3]. cbn [fst snd] in Hfi, Hit3.
+    pose proof (expand_flexible_tracks_homog k Hk _ _ _ _ _ _ _ _ _ _ Hmn Hmx Hae Hfi H2) as H3.
+    constructor. apply rel_ss_set; [exact Hs| |exact Hoadj|exact Hit3].
+    destruct (is_stretch_content al); [apply (stretch_auto_tracks_homog k Hk); assumption|exact H3].
+  Qed.
 End Sizing.
